@@ -75,6 +75,22 @@ def solve(pc, goal, axioms, want_model=True):
     if r == z3.sat:
         return "failed", "z3", ms, s.model(), ""
     reason = s.reason_unknown()
+    # z3 is seed-sensitive on quantified / nonlinear queries: small portfolio of restarts before giving up
+    for seed in (1, 2, 3):
+        s2 = z3.Solver()
+        s2.set("timeout", max(3000, Z3_TIMEOUT_MS // 3))
+        s2.set("random_seed", seed)
+        s2.set("smt.random_seed", seed)
+        for c in pc:
+            s2.add(c)
+        for a in axioms:
+            s2.add(a)
+        s2.add(z3.Not(goal))
+        r2 = s2.check()
+        if r2 == z3.unsat:
+            return "discharged", f"z3(seed={seed})", int((time.time() - t0) * 1000), None, ""
+        if r2 == z3.sat:
+            return "failed", f"z3(seed={seed})", int((time.time() - t0) * 1000), s2.model(), ""
     # cvc5 on z3's unknowns
     v2 = _cvc5(s)
     ms = int((time.time() - t0) * 1000)
